@@ -470,9 +470,12 @@ fn check_svc(out: &mut Out, rng: &mut Rng, k: &Kern, x: &[Vec<f64>], y: &[f64], 
                 out.fail("svc_termination", &format!("SVC::fit did not return within {} s", secs), svc_input(k, x, y, c, epoch, tol, reps));
                 return false;
             }
-            Some(Err(msg)) if msg.contains("index out of bounds") && in_known_noise_regime(k, x, c, 1e3) => {
-                // the other outcome of the same finding: with gradients that are rounding noise `clean` drops every
-                // support vector and `finish` -> smo -> select_pair indexes the empty list (svc.rs, select_pair)
+            Some(Err(msg)) if msg.contains("index out of bounds: the len is") && in_known_noise_regime(k, x, c, 1e3) => {
+                // the other listed outcome of the same finding: with gradients that are rounding noise `clean` drops
+                // every support vector (or all but one) and `finish` -> smo -> select_pair indexes the list with the
+                // stale svmin / svmax: 'the len is 0 but the index is 0' and 'the len is 1 but the index is 1' (the
+                // shrunk witness gives either, about half of the schedules each). Any other panic, or one outside the
+                // regime, is a failure.
                 out.known("svc-offset-no-termination", &format!("SVC::fit ({} kernel, {} rows, C = {}) panicked instead of returning ({}): gradient rounding noise u*C*n*max|K| = {:.2e} > 1", k.name(), n, c, msg, gradient_noise(k, x, c)));
                 out.count("known:svc-offset-no-termination(panic: all support vectors cleaned away)");
                 return true;
@@ -1874,8 +1877,8 @@ fn main() {
     };
     let max_known = if t { 3 } else { 1 };
     for (zone, ratios, spreads, cases) in [
-        ("below", &[1e3, 1e4, 1e5, 1e6][..], &[1.0, 1.0, 0.125, 1e-3][..], if t { 3000 } else { 240 }),
-        ("above", &[1e7, 1e8, 1e9, 3e9, 1e5][..], &[1.0, 60.0][..], if t { 260 } else { 34 }),
+        ("below", &[1e3, 1e4, 1e5, 1e6][..], &[1.0, 1.0, 0.125, 1e-3][..], if t { 3000 } else { 160 }),
+        ("above", &[1e7, 1e8, 1e9, 3e9, 1e5][..], &[1.0, 60.0][..], if t { 260 } else { 24 }),
     ] {
         let (mut svc_known, mut svr_known) = (0, 0);
         for i in 0..cases {
